@@ -50,10 +50,24 @@ REGISTERED = {"invalid_request", "invalid_client", "invalid_grant", "unauthorize
               # OAuth 1 (authlib's own vocabulary, RFC 5849 defines none)
               "invalid_nonce", "invalid_signature", "missing_required_parameter", "duplicated_oauth_protocol_parameter",
               "unsupported_signature_method", "method_not_allowed", "unsupported_parameter", "insecure_transport"}
-FITTING = {200, 302, 400, 401, 403, 405}
+FITTING = {200, 201, 204, 302, 400, 401, 403, 405}
 
 HOSTILE = ["", "x" * 5000, '"', "\\", "a\"b", "a\\b", "\x00", "a\x00b", "\r\n", "a\r\nSet-Cookie: x=1", "é", "日本", "😀".encode("utf-16", "surrogatepass").decode("utf-16"),
            "%", "%zz", "%e9", "%00", "a b", " ", "\t", "a&b=c", "a=b", "a;b", "{}", "[]", "null", "'", "<script>", "\x7f", "\x1f", "~", "%c3%28"]
+
+
+def site(e):
+    """the innermost frame inside the repository: where the exception left the library's control"""
+    import traceback
+    last = None
+    for fr in traceback.extract_tb(e.__traceback__):
+        if "/authlib/" in fr.filename:
+            last = "%s.%s" % (fr.filename.split("/authlib/", 1)[1][:-3].replace("/", "."), fr.name)
+    return last or "outside"
+
+
+def module_of(e):
+    return site(e).rsplit(".", 1)[0]
 
 
 def desc_ok(d):
@@ -79,8 +93,45 @@ def build_app():
 
     server = AuthorizationServer(app, query_client=lambda cid: store.clients.get(cid), save_token=save_token)
     g = S.make_grants(store, {"alice": "pw"})
-    server.register_grant(g["code"], [CodeChallenge(required=False)])
+    from authlib.oidc.core import grants as oidc_grants
+    from authlib.oidc.core.grants import OpenIDCode
+    cfg = {"key": SECRET, "alg": "HS256", "iss": "https://as.example", "exp": 3600}
+
+    class OIDCCode(OpenIDCode):
+        def exists_nonce(self, nonce, request):
+            return False
+
+        def get_jwt_config(self, grant):
+            return dict(cfg)
+
+        def generate_user_info(self, user, scope):
+            return {"sub": user.get_user_id()}
+
+    class Mixin:
+        def exists_nonce(self, nonce, request):
+            return False
+
+        def get_jwt_config(self):
+            return dict(cfg)
+
+        def generate_user_info(self, user, scope):
+            return {"sub": user.get_user_id()}
+
+    class OImplicit(Mixin, oidc_grants.OpenIDImplicitGrant):
+        pass
+
+    class OHybrid(Mixin, oidc_grants.OpenIDHybridGrant):
+        def save_authorization_code(self, code, request):
+            store.codes[code] = S.Code(code, request.client.client_id, request.redirect_uri, request.scope, request.user.get_user_id(), nonce=request.data.get("nonce"))
+
+    server.register_grant(g["code"], [CodeChallenge(required=False), OIDCCode(require_nonce=False)])
     server.register_grant(g["implicit"])
+    server.register_grant(OImplicit)
+    server.register_grant(OHybrid)
+    store.clients["c1"].response_types += ["id_token", "id_token token", "code id_token", "code token", "code id_token token"]
+    store.clients["c1"].grant_types += ["implicit"]
+    store.clients["pub"].response_types += ["id_token", "id_token token"]
+    store.clients["pub"].scope = "a openid"
     server.register_grant(g["password"])
     server.register_grant(g["client_credentials"])
     server.register_grant(g["refresh"])
@@ -111,7 +162,13 @@ def build_app():
         def introspect_token(self, token):
             return {"active": True, "client_id": token.client_id, "scope": token.get_scope()}
 
+    from authlib.oidc.registration import ClientMetadataClaims as OIDCClientMetadataClaims
+    from authlib.oauth2.rfc7591 import ClientMetadataClaims
+
     class Reg(ClientRegistrationEndpoint):
+        claims_classes = [ClientMetadataClaims, OIDCClientMetadataClaims]
+        software_statement_alg_values_supported = ["HS256"]
+
         def authenticate_token(self, request):
             return request.headers.get("Authorization") == "Bearer init-token"
 
@@ -123,9 +180,12 @@ def build_app():
             return object()
 
         def resolve_public_key(self, request):
-            return None
+            return SECRET
 
     class C:
+        def check_client_secret(self, secret):
+            return secret == store.reg[self.cid]["client_secret"]
+
         def __init__(self, cid):
             self.cid = cid
             self.client_info = {"client_id": cid, "client_secret": store.reg[cid]["client_secret"]}
@@ -135,6 +195,8 @@ def build_app():
             return self.cid
 
     class Conf(ClientConfigurationEndpoint):
+        claims_classes = [ClientMetadataClaims, OIDCClientMetadataClaims]
+
         def authenticate_token(self, request):
             return request.headers.get("Authorization", "").startswith("Bearer reg-token")
 
@@ -159,6 +221,33 @@ def build_app():
 
         def get_server_metadata(self):
             return {}
+
+    from authlib.oauth2.rfc7523 import JWTBearerClientAssertion, JWTBearerTokenValidator as V7523
+    from authlib.oauth2.rfc9068 import JWTBearerTokenValidator as V9068
+    store.clients["cj"] = S.Client("cj", "", [], "a", ["client_credentials", "urn:ietf:params:oauth:grant-type:jwt-bearer"], [], "client_assertion_jwt")
+    server.register_grant(S.make_jwt_bearer(store, lambda client: SECRET))
+    seen_jti = set()
+
+    class Assertion(JWTBearerClientAssertion):
+        def validate_jti(self, claims, jti):
+            if not isinstance(jti, str) or jti in seen_jti:
+                return False
+            return True
+
+        def resolve_client_public_key(self, client, headers):
+            return SECRET
+
+    server.register_client_auth_method(JWTBearerClientAssertion.CLIENT_AUTH_METHOD, Assertion("https://as.example/token"))
+    g["client_credentials"].TOKEN_ENDPOINT_AUTH_METHODS = ["client_secret_basic", "client_secret_post", JWTBearerClientAssertion.CLIENT_AUTH_METHOD]
+
+    class R9068(V9068):
+        def get_jwks(self):
+            return {"keys": [{"kty": "oct", "kid": "k", "k": base64.urlsafe_b64encode(SECRET).rstrip(b"=").decode()}]}
+
+    require9068 = ResourceProtector()
+    require9068.register_token_validator(R9068("https://as.example", "https://rs.example"))
+    require7523 = ResourceProtector()
+    require7523.register_token_validator(V7523(SECRET, issuer="https://as.example"))
 
     server.register_endpoint(Revocation)
     server.register_endpoint(Introspection)
@@ -206,7 +295,74 @@ def build_app():
     def api():
         return jsonify(ok=True)
 
+    @app.route("/api9068", methods=["GET"])
+    @require9068("a")
+    def api9068():
+        return jsonify(ok=True)
+
+    @app.route("/api7523", methods=["GET"])
+    @require7523("a")
+    def api7523():
+        return jsonify(ok=True)
+
     return app, store
+
+
+SECRET = b"0123456789abcdef0123456789abcdef"
+
+
+def b64u(b):
+    return base64.urlsafe_b64encode(b).rstrip(b"=")
+
+
+def mk_jwt(header, claims, secret=SECRET):
+    """HS256 by hand, so that headers and claims of any JSON type can be signed"""
+    import hashlib
+    import hmac
+    si = b64u(json.dumps(header).encode()) + b"." + b64u(claims if isinstance(claims, bytes) else json.dumps(claims).encode())
+    return (si + b"." + b64u(hmac.new(secret, si, hashlib.sha256).digest())).decode()
+
+
+NOW = int(time.time())
+JWT_BASES = {
+    "grant-assertion": ({"alg": "HS256", "kid": "k"}, {"iss": "cj", "sub": "alice", "aud": "https://as.example/token", "exp": NOW + 3000, "iat": NOW, "jti": "j1"}),
+    "client-assertion": ({"alg": "HS256", "kid": "k"}, {"iss": "cj", "sub": "cj", "aud": "https://as.example/token", "exp": NOW + 3000, "iat": NOW, "jti": "j2"}),
+    "at9068": ({"alg": "HS256", "kid": "k", "typ": "at+jwt"}, {"iss": "https://as.example", "sub": "alice", "aud": "https://rs.example", "exp": NOW + 3000, "iat": NOW,
+                                                               "jti": "j3", "client_id": "c1", "scope": "a", "auth_time": NOW, "acr": "0", "amr": ["pwd"],
+                                                               "groups": ["g"], "roles": ["r"], "entitlements": ["e"]}),
+    "id_token": ({"alg": "HS256", "kid": "k"}, {"iss": "https://as.example", "sub": "alice", "aud": ["c1"], "exp": NOW + 3000, "iat": NOW, "nbf": NOW - 5, "nonce": "n1", "azp": "c1",
+                                                "auth_time": NOW, "acr": "0", "amr": ["pwd"], "at_hash": "x", "c_hash": "y"}),
+    "at7523": ({"alg": "HS256"}, {"iss": "https://as.example", "sub": "alice", "exp": NOW + 3000, "iat": NOW, "client_id": "c1", "grant_type": "password", "scope": "a"}),
+}
+RETYPED = [["\"\u00e9\\\r\n"], None, 5, -1, 10 ** 30, 1.5, True, "s", "", "\"\\", "\u00e9", [], [1], ["a", 1], {}, {"a": 1}, "9" * 400]
+
+
+def jwt_variants(rng, name, quick):
+    header, claims = JWT_BASES[name]
+    yield "good", mk_jwt(header, claims)
+    for part, obj in (("header", header), ("claim", claims)):
+        members = list(obj) + (["crit", "jwk", "jku", "x5c", "b64", "zip", "enc", "typ", "cty"] if part == "header" else ["nbf", "nonce", "azp", "at_hash", "unknown"])
+        for m in members:
+            if m in obj:
+                o2 = dict(obj)
+                del o2[m]
+                yield "%s-removed:%s" % (part, m), mk_jwt(o2 if part == "header" else header, claims if part == "header" else o2)
+            for v in (RETYPED if not quick else rng.sample(RETYPED, 6)):
+                o2 = dict(obj)
+                o2[m] = v
+                yield "%s-retyped:%s" % (part, m), mk_jwt(o2 if part == "header" else header, claims if part == "header" else o2)
+    for raw in (b"", b"[]", b"null", b"5", b"\"s\"", b"{", b"\xff\xfe", b"{\"exp\":1e999}", b"{\"iss\":\"\\ud800\"}"):
+        yield "payload-not-claims", mk_jwt(header, raw)
+    good = mk_jwt(header, claims).encode()
+    for lab, t in seg_mutations(rng, good, quick):
+        yield "token:" + lab, t.decode("latin-1")
+    # five segments: an encrypted token where a signed one is expected
+    jwe = JsonWebEncryption()
+    for hdr, key in (({"alg": "A256KW", "enc": "A128CBC-HS256"}, SECRET), ({"alg": "dir", "enc": "A256GCM"}, SECRET), ({"alg": "A128KW", "enc": "A128GCM"}, SECRET[:16])):
+        t = bytes(jwe.serialize_compact(hdr, json.dumps(claims).encode(), key)).decode()
+        yield "token:jwe", t
+        yield "token:jwe", t[:-3]
+        yield "token:jwe", "e30." + t.split(".", 1)[1]
 
 
 def basic(cid, secret):
@@ -217,6 +373,15 @@ BASE = {
     "authorize": ("GET", "/authorize", {"response_type": "code", "client_id": "c1", "redirect_uri": "https://c1.example/cb", "scope": "a", "state": "st",
                                         "code_challenge": "E9Melhoa2OwvFrEMTJguCHaoeK1t8URWbuGJSstw-cM", "code_challenge_method": "S256", "nonce": "n1"},
                   {"X-User": "alice"}, "query"),
+    "authorize:oidc-code": ("GET", "/authorize", {"response_type": "code", "client_id": "c1", "redirect_uri": "https://c1.example/cb", "scope": "openid a", "state": "st", "nonce": "n1",
+                                                  "prompt": "login", "max_age": "300", "display": "page", "claims": "{}", "id_token_hint": "x", "login_hint": "a", "acr_values": "0",
+                                                  "response_mode": "query"}, {"X-User": "alice"}, "query"),
+    "authorize:oidc-implicit": ("GET", "/authorize", {"response_type": "id_token token", "client_id": "pub", "redirect_uri": "https://pub.example/cb", "scope": "openid a", "state": "st",
+                                                      "nonce": "n1", "response_mode": "fragment"}, {"X-User": "alice"}, "query"),
+    "authorize:oidc-hybrid": ("POST", "/authorize", {"response_type": "code id_token", "client_id": "c1", "redirect_uri": "https://c1.example/cb", "scope": "openid a", "state": "st",
+                                                     "nonce": "n1", "response_mode": "form_post"}, {"X-User": "alice"}, "form"),
+    "authorize:implicit": ("GET", "/authorize", {"response_type": "token", "client_id": "pub", "redirect_uri": "https://pub.example/cb", "scope": "a", "state": "st"}, {"X-User": "alice"}, "query"),
+    "authorize:denied": ("GET", "/authorize", {"response_type": "code", "client_id": "c1", "redirect_uri": "https://c1.example/cb", "scope": "a", "state": "st"}, {}, "query"),
     "token:password": ("POST", "/token", {"grant_type": "password", "username": "alice", "password": "pw", "scope": "a"}, {"Authorization": basic("c1", "s1")}, "form"),
     "token:client_credentials": ("POST", "/token", {"grant_type": "client_credentials", "scope": "a"}, {"Authorization": basic("c1", "s1")}, "form"),
     "token:code": ("POST", "/token", {"grant_type": "authorization_code", "code": "CODE", "redirect_uri": "https://c1.example/cb", "code_verifier": "dBjftJeZ4CVP-mB92K27uhbUJU1p1r_wW1gFWFOEjXk"},
@@ -227,10 +392,26 @@ BASE = {
     "introspect": ("POST", "/introspect", {"token": "AT", "token_type_hint": "access_token"}, {"Authorization": basic("c1", "s1")}, "form"),
     "device": ("POST", "/device", {"client_id": "c1", "scope": "a"}, {"Authorization": basic("c1", "s1")}, "form"),
     "register": ("POST", "/register", {"redirect_uris": ["https://x.example/cb"], "client_name": "n", "scope": "a", "grant_types": ["authorization_code"],
-                                       "response_types": ["code"], "token_endpoint_auth_method": "none"}, {"Authorization": "Bearer init-token"}, "json"),
+                                       "response_types": ["code"], "token_endpoint_auth_method": "none", "contacts": ["a@x.example"], "client_uri": "https://x.example/",
+                                       "logo_uri": "https://x.example/l.png", "tos_uri": "https://x.example/t", "policy_uri": "https://x.example/p",
+                                       "jwks": {"keys": [{"kty": "oct", "k": "AAAAAAAAAAAAAAAAAAAAAA"}]}, "software_id": "s", "software_version": "1",
+                                       "software_statement": mk_jwt({"alg": "HS256"}, {"software_id": "s"}),
+                                       "application_type": "web", "sector_identifier_uri": "https://x.example/s.json", "subject_type": "public",
+                                       "id_token_signed_response_alg": "RS256", "id_token_encrypted_response_alg": "RSA-OAEP", "id_token_encrypted_response_enc": "A128GCM",
+                                       "userinfo_signed_response_alg": "RS256", "default_max_age": 60, "require_auth_time": True, "default_acr_values": ["0"],
+                                       "initiate_login_uri": "https://x.example/login", "request_object_signing_alg": "RS256", "request_uris": ["https://x.example/r"],
+                                       "token_endpoint_auth_signing_alg": "RS256"},
+                 {"Authorization": "Bearer init-token"}, "json"),
     "configure": ("PUT", "/register/cid1", {"client_id": "cid1", "redirect_uris": ["https://x.example/cb"], "client_name": "n"}, {"Authorization": "Bearer reg-token-cid1"}, "json"),
     "api": ("GET", "/api", {}, {"Authorization": "Bearer AT"}, "query"),
+    "token:jwt_bearer": ("POST", "/token", {"grant_type": "urn:ietf:params:oauth:grant-type:jwt-bearer", "assertion": mk_jwt(*JWT_BASES["grant-assertion"]), "scope": "a"}, {}, "form"),
+    "token:client_assertion": ("POST", "/token", {"grant_type": "client_credentials", "scope": "a", "client_assertion_type": "urn:ietf:params:oauth:client-assertion-type:jwt-bearer",
+                                                  "client_assertion": mk_jwt(*JWT_BASES["client-assertion"])}, {}, "form"),
+    "api9068": ("GET", "/api9068", {}, {"Authorization": "Bearer " + mk_jwt(*JWT_BASES["at9068"])}, "query"),
+    "api7523": ("GET", "/api7523", {}, {"Authorization": "Bearer " + mk_jwt(*JWT_BASES["at7523"])}, "query"),
 }
+JWT_CARRIERS = {"token:jwt_bearer": ("param", "assertion", "grant-assertion"), "token:client_assertion": ("param", "client_assertion", "client-assertion"),
+                "api9068": ("bearer", None, "at9068"), "api7523": ("bearer", None, "at7523")}
 
 
 def send(client, method, path, params, headers, placement, raw_query=None, raw_body=None, content_type=None):
@@ -270,6 +451,8 @@ def classify(ctx, endpoint, resp, case):
     if st not in FITTING:
         ctx.violation("C20:status:%s:%d" % (endpoint, st), "an endpoint answered with status %d" % st, case)
         return "status-%d" % st
+    if st == 204 and not body:
+        return "ok"
     if data is None:
         if st == 200:
             return "ok-nonjson"
@@ -305,11 +488,7 @@ def run_endpoints(ctx):
                                          code_challenge_method="S256")
             store.devices["DC"] = DeviceCredentialDict(client_id="c1", scope="a", user_code="UC", device_code="DC", expires_at=int(time.time()) + 600)
             store.user_grants["UC"] = (S.User("bob"), True)
-            if not any(t.refresh_token == "RT" and not t.refresh_token_revoked_at for t in store.tokens):
-                store.tokens.append(S.Token("c1", "alice", token_type="Bearer", access_token="AT", refresh_token="RT", scope="a", expires_in=3600))
-            for t in store.tokens:
-                if t.access_token == "AT":
-                    t.access_token_revoked_at = 0
+            store.tokens[:] = [S.Token("c1", "alice", token_type="Bearer", access_token="AT", refresh_token="RT", scope="a", expires_in=3600)]
 
         variants = [("base", dict(params), dict(headers), None, None, None)]
         names = list(params) + ["extra"]
@@ -356,6 +535,15 @@ def run_endpoints(ctx):
                 variants.append(("raw-body", dict(params), dict(headers), None, raw.encode("latin-1") if isinstance(raw, str) else raw, None))
         for ct in ("text/plain", "application/json", "multipart/form-data; boundary=x", "application/x-www-form-urlencoded; charset=latin-1", "", "\x00"):
             variants.append(("content-type", dict(params), dict(headers), None, None, ct))
+        if ep in JWT_CARRIERS:
+            how, pname, jname = JWT_CARRIERS[ep]
+            for lab, tok in jwt_variants(rng, jname, quick):
+                p, hd = dict(params), dict(headers)
+                if how == "param":
+                    p[pname] = tok
+                else:
+                    hd["Authorization"] = "Bearer " + tok
+                variants.append(("jwt:" + lab.split(":")[0], p, hd, None, None, None))
         for lab, p, hd, rq, rb, ct in variants:
             fresh()
             case = {"endpoint": ep, "variant": lab, "params": p, "headers": hd, "raw_query": rq, "raw_body": rb, "content_type": ct}
@@ -363,13 +551,13 @@ def run_endpoints(ctx):
             try:
                 resp = send(client, method, path, p, hd, placement, rq, rb, ct)
             except Exception as e:  # noqa: BLE001
-                key = "C20:crash:%s:%s" % (ep, type(e).__name__)
+                key = "C20:crash:%s:%s@%s" % (ep, type(e).__name__, site(e))
                 ctx.violation(key, "a request to the %s endpoint ended in an unhandled %s: %s" % (ep, type(e).__name__, str(e)[:120]), case)
                 ctx.count("outcome:%s:crash:%s" % (ep, type(e).__name__))
                 continue
             cls = classify(ctx, ep, resp, case)
             ctx.count("outcome:%s:%s" % (ep, cls))
-            if lab == "base" and not cls.startswith("ok"):
+            if lab == "base" and not (cls.startswith("ok") or (ep == "authorize:denied" and cls == "error:access_denied")):
                 ctx.obligation_broken("base-request:%s" % ep, "the valid base request was refused: %s" % cls)
 
 
@@ -384,11 +572,24 @@ def seg_mutations(rng, token, quick):
                base64.urlsafe_b64encode(b"{\"alg\":\"dir\",\"enc\":7}").rstrip(b"="), base64.urlsafe_b64encode(b"{\"alg\":\"dir\",\"enc\":\"A128GCM\",\"zip\":[]}").rstrip(b"="),
                base64.urlsafe_b64encode(b"{\"alg\":\"ECDH-ES\",\"enc\":\"A128GCM\",\"epk\":5}").rstrip(b"="),
                base64.urlsafe_b64encode(b"{\"alg\":\"ECDH-ES\",\"enc\":\"A128GCM\",\"epk\":{\"kty\":\"EC\"}}").rstrip(b"="),
+               b64u(json.dumps({"alg": "ECDH-ES+A128KW", "enc": "A128GCM", "epk": {"kty": "EC", "crv": "P-256", "x": "AA", "y": "AA"}}).encode()),
+               b64u(json.dumps({"alg": "ECDH-ES+A128KW", "enc": "A128GCM", "epk": {"kty": "EC", "crv": "P-384", "x": "AA", "y": "AA"}}).encode()),
+               b64u(json.dumps({"alg": "ECDH-ES+A128KW", "enc": "A128GCM", "epk": {"kty": "OKP", "crv": "X25519", "x": "AA"}}).encode()),
+               b64u(json.dumps({"alg": "ECDH-ES+A128KW", "enc": "A128GCM", "epk": {"kty": "EC", "crv": "P-256", "x": 5, "y": []}, "apu": 5, "apv": []}).encode()),
                base64.urlsafe_b64encode(b"{\"alg\":\"A128GCMKW\",\"enc\":\"A128GCM\",\"iv\":5,\"tag\":null}").rstrip(b"="),
                base64.urlsafe_b64encode(b"{\"alg\":\"A128GCMKW\",\"enc\":\"A128GCM\"}").rstrip(b"=")]
+    # the algorithm swapped for another registered one, of this and of other key families
+    for alg in ("none", "HS384", "RS256", "PS256", "ES256", "ES256K", "EdDSA"):
+        bad_b64.append(b64u(json.dumps({"alg": alg, "kid": "k"}).encode()))
+    for alg, enc in (("dir", "A128GCM"), ("dir", "A128CBC-HS256"), ("RSA-OAEP", "A128CBC-HS256"), ("RSA1_5", "A128CBC-HS256"), ("A256KW", "A128CBC-HS256"), ("A128KW", "A256GCM"),
+                     ("ECDH-ES+A128KW", "A128CBC-HS256"), ("ECDH-1PU", "A128GCM"), ("A128KW", "C20P"), ("PBES2-HS256+A128KW", "A128CBC-HS256")):
+        bad_b64.append(b64u(json.dumps({"alg": alg, "enc": enc}).encode()))
+    bad_b64.append(b64u(json.dumps({"alg": "A128KW", "enc": "A128CBC-HS256", "zip": "DEF"}).encode()))
+    bad_b64.append(b64u(json.dumps({"alg": "HS256", "crit": ["\"\u00e9\\"]}).encode()))
+    bad_b64.append(b64u(json.dumps({"alg": "HS256", "b64": False, "crit": ["b64"]}).encode()))
     out = []
     for i in range(len(segs)):
-        for b in (bad_b64 if not quick else rng.sample(bad_b64, 10)):
+        for b in (bad_b64 if not quick else rng.sample(bad_b64, 14)):
             s2 = list(segs)
             s2[i] = b
             out.append(("seg%d" % i, b".".join(s2)))
@@ -413,9 +614,22 @@ def run_jose(ctx):
                ("jws.deserialize", lambda t: jws.deserialize(t, hs), tok),
                ("jwt.decode", lambda t: jwt.decode(t, hs), tok),
                ("jwt.decode:keyset", lambda t: jwt.decode(t, ks), tok),
+               ("jwt.decode:jwks-dict", lambda t: jwt.decode(t, {"keys": [dict(R.material("oct1", "jwk"), kid="k")]}), tok),
                ("jwe.deserialize_compact", lambda t: jwe.deserialize_compact(t, E.material("oct16")), enc_tok),
                ("jwe.deserialize", lambda t: jwe.deserialize(t, E.material("oct16")), enc_tok),
                ("jwt.decode:jwe", lambda t: JsonWebToken(["A128KW", "A128CBC-HS256"]).decode(t, E.material("oct16")), enc_tok)]
+    rs_tok = bytes(jws.serialize_compact({"alg": "RS256"}, b'{"iss":"i"}', R.material("rsa1", "pem")))
+    es_tok = bytes(jws.serialize_compact({"alg": "ES256"}, b'{"iss":"i"}', R.material("p256", "pem")))
+    ed_tok = bytes(jws.serialize_compact({"alg": "EdDSA"}, b'{"iss":"i"}', R.material("ed25519", "pem")))
+    rsa_enc = bytes(jwe.serialize_compact({"alg": "RSA-OAEP", "enc": "A128GCM"}, b"secret", E.material("rsa1", private=False)))
+    ec_enc = bytes(jwe.serialize_compact({"alg": "ECDH-ES+A128KW", "enc": "A128GCM"}, b"secret", E.material("p256", private=False)))
+    dir_enc = bytes(jwe.serialize_compact({"alg": "dir", "enc": "A128GCM"}, b"secret", E.material("oct16")))
+    targets += [("jws.deserialize_compact:RS256", lambda t: jws.deserialize_compact(t, R.material("rsa1.pub", "pem")), rs_tok),
+                ("jws.deserialize_compact:ES256", lambda t: jws.deserialize_compact(t, R.material("p256.pub", "key")), es_tok),
+                ("jws.deserialize_compact:EdDSA", lambda t: jws.deserialize_compact(t, R.material("ed25519.pub", "jwk")), ed_tok),
+                ("jwe.deserialize_compact:RSA-OAEP", lambda t: jwe.deserialize_compact(t, E.material("rsa1")), rsa_enc),
+                ("jwe.deserialize_compact:ECDH-ES+A128KW", lambda t: jwe.deserialize_compact(t, E.material("p256")), ec_enc),
+                ("jwe.deserialize_compact:dir", lambda t: jwe.deserialize_compact(t, E.material("oct16")), dir_enc)]
     for name, fn, good in targets:
         for lab, t in [("good", good)] + seg_mutations(rng, good, quick):
             case = {"entry": name, "variant": lab, "token": t}
@@ -427,8 +641,395 @@ def run_jose(ctx):
                 ctx.count("jose:%s:%s" % (name, type(e).__name__))
             except Exception as e:  # noqa: BLE001
                 ctx.count("jose:%s:ESCAPES:%s" % (name, type(e).__name__))
-                ctx.violation("C20:jose-escapes:%s:%s" % (name, type(e).__name__),
+                ctx.violation("C20:jose-escapes:%s@%s" % (type(e).__name__, module_of(e)),
                               "%s on untrusted input raised %s, which is not in the JoseError family: %s" % (name, type(e).__name__, str(e)[:100]), case)
+
+
+JSON_RETYPED = [None, 5, True, 1.5, [], ["a"], [1, 2], [300], {}, {"a": 1}, "\u00e9", "", "e30", "AAAA"]
+
+
+def run_jose_json(ctx):
+    """JWS and JWE JSON serializations with every member (at every level) removed or replaced by a value of another JSON type"""
+    jws, jwe = JsonWebSignature(), JsonWebEncryption()
+    hs = R.material("oct1", "raw")
+    flat = json.loads(json.dumps(jws.serialize_json({"protected": {"alg": "HS256"}, "header": {"kid": "k"}}, b"payload", hs)))
+    general = json.loads(json.dumps(jws.serialize_json([{"protected": {"alg": "HS256"}, "header": {"kid": "k"}}, {"protected": {"alg": "HS384"}}], b"payload", hs)))
+    ej = json.loads(json.dumps(jwe.serialize_json({"protected": {"alg": "A128KW", "enc": "A128CBC-HS256"}, "unprotected": {"jku": "x"},
+                                                    "recipients": [{"header": {"kid": "a"}}, {"header": {"kid": "b"}}], "aad": b"aad"}, b"secret",
+                                                   [E.material("oct16"), E.material("oct16b")]), default=lambda b: b.decode()))
+
+    def paths(o, pre=()):
+        if isinstance(o, dict):
+            for k, v in o.items():
+                yield pre + (k,)
+                yield from paths(v, pre + (k,))
+        elif isinstance(o, list):
+            for i, v in enumerate(o):
+                yield pre + (i,)
+                yield from paths(v, pre + (i,))
+
+    def with_at(o, path, val, remove=False):
+        import copy
+        o = copy.deepcopy(o)
+        cur = o
+        for k in path[:-1]:
+            cur = cur[k]
+        if remove:
+            del cur[path[-1]]
+        else:
+            cur[path[-1]] = val
+        return o
+
+    targets = [("jws.deserialize_json:flat", flat, lambda o: jws.deserialize_json(o, hs)), ("jws.deserialize_json:general", general, lambda o: jws.deserialize_json(o, hs)),
+               ("jwe.deserialize_json", ej, lambda o: jwe.deserialize_json(o, E.material("oct16"))),
+               ("jws.deserialize:text", flat, lambda o: jws.deserialize(json.dumps(o), hs)), ("jwe.deserialize:text", ej, lambda o: jwe.deserialize(json.dumps(o), E.material("oct16")))]
+    for name, good, fn in targets:
+        variants = [("good", good)]
+        for path in paths(good):
+            variants.append(("removed:" + "/".join(map(str, path)), with_at(good, path, None, remove=True)))
+            for v in JSON_RETYPED:
+                variants.append(("retyped:" + "/".join(map(str, path)), with_at(good, path, v)))
+        for lab, o in variants:
+            case = {"entry": name, "variant": lab, "object": o}
+            ctx.case(case, (name, json.dumps(o, sort_keys=True)), "jose-json:%s:%s" % (name, lab.split(":")[0]))
+            try:
+                fn(o)
+                ctx.count("jose-json:%s:ok" % name)
+            except JoseError as e:
+                ctx.count("jose-json:%s:%s" % (name, type(e).__name__))
+            except Exception as e:  # noqa: BLE001
+                ctx.count("jose-json:%s:ESCAPES:%s" % (name, type(e).__name__))
+                ctx.violation("C20:jose-escapes:%s@%s" % (type(e).__name__, module_of(e)),
+                              "%s on an untrusted JSON serialization raised %s, which is not in the JoseError family: %s" % (name, type(e).__name__, str(e)[:100]), case)
+
+
+# ---------------------------------------------------------------------------------------------- model / code correspondence
+PV_POOL = [None, True, False, 0, 5, -1, 300, 10 ** 30, 1.5, "", "a", "HS256", "A128KW", "A128GCM", "DEF", "\u00e9", "a b", " a  b ", "https://x.example/cb", "not a url",
+           [], ["a"], ["a", "b"], [1], [1, 2], [300], [True], [1.5], ["a", 1], [[]], [None], {}, {"a": 1}, {"alg": "HS256"}]
+
+
+def outcome(fn, val=lambda r: r):
+    """the real code's outcome in the model's vocabulary"""
+    try:
+        return ["val", val(fn())]
+    except JoseError as e:
+        return ["refuse", type(e).__name__, e.description or None]
+    except OAuth2Error as e:
+        return ["refuse", e.error, e.description or None]
+    except (TypeError, AttributeError, KeyError, ValueError) as e:
+        from authlib.common.errors import AuthlibBaseError
+        if isinstance(e, AuthlibBaseError):
+            return ["refuse", getattr(e, "error", type(e).__name__), getattr(e, "description", None) or None]
+        base = [c.__name__ for c in (TypeError, AttributeError, KeyError, ValueError) if isinstance(e, c)][0]
+        return ["exc", base]
+    except Exception as e:  # noqa: BLE001  (cryptography's InvalidUnwrap / InvalidTag)
+        return ["exc", "Other:" + type(e).__name__]
+
+
+class _Reached(Exception):
+    pass
+
+
+def run_model(ctx):
+    from authlib.common.encoding import to_bytes
+    from authlib.common.urls import is_valid_url
+    from authlib.oauth2.base import invalid_error_characters
+    from authlib.oauth2.rfc6749 import util as u6749
+    from authlib.oauth2.rfc6749.resource_protector import TokenValidator
+    from authlib.oauth2.rfc6749.grants.base import AuthorizationEndpointMixin
+    from authlib.oauth2.rfc6749.errors import InvalidGrantError
+    from authlib.oauth2.rfc7591 import ClientMetadataClaims
+    from authlib.oauth2.rfc7523 import JWTBearerGrant, JWTBearerClientAssertion
+    from authlib.oauth2.rfc7523 import jwt_bearer as m7523
+    from authlib.oauth2.rfc9068.claims import JWTAccessTokenClaims
+    from authlib.oidc.core import claims as oidc_claims
+    from authlib.oidc.core.util import create_half_hash
+    from authlib.oauth1.rfc5849 import signature as o1sig
+    from authlib.jose.errors import InvalidHeaderParameterNameError
+    rng = ctx.rng
+    quick = ctx.tier == "quick"
+    ctx.oracles = {"repr_num": lambda v: str(v).encode(), "lower": lambda s: s.lower().encode() if isinstance(s, str) else s,
+                   "is_valid_url": lambda s: bool(is_valid_url(s, fragments_allowed=False))}
+    ctx._model = None
+    M = ctx.model.call
+
+    def txt(r):
+        return r.decode("utf-8", "surrogateescape") if isinstance(r, bytes) else r
+
+    def cmp(fn, case, real, mod, exact=True, primitive=False):
+        ctx.case(dict(case, fn=fn), (fn, json.dumps(case, sort_keys=True, default=repr)), "model:%s:%s" % (fn, real[0]))
+        if exact:
+            ctx.compare(fn, case, real, mod)
+        else:
+            ctx.compare(fn, case, real[:2] if real[0] != "val" else ["val"], mod[:2] if mod[0] != "val" else ["val"])
+        if real[0] == "exc" and not primitive:
+            ctx.violation("C20:unit-crash:%s:%s" % (fn, real[1]), "%s raised %s on a value of another type" % (fn, real[1]), case)
+
+    # 1. alg / enc / zip
+    jwe = JsonWebEncryption()
+    for allow in (None, ["HS256", "A128KW", "A128GCM", "DEF"]):
+        jws = JsonWebSignature(algorithms=allow)
+        jwe_a = JsonWebEncryption(algorithms=allow)
+
+        def raiser(h, p):
+            raise _Reached()
+        for v in PV_POOL + ["none", "HS384", "nope"]:
+            for member, missing, unsupported, registry, real_fn in (
+                    ("alg", "MissingAlgorithmError", "UnsupportedAlgorithmError", list(jws.ALGORITHMS_REGISTRY), None),
+                    ("alg", "MissingAlgorithmError", "UnsupportedAlgorithmError", list(jwe.ALG_REGISTRY), jwe_a.get_header_alg),
+                    ("enc", "MissingEncryptionAlgorithmError", "UnsupportedEncryptionAlgorithmError", list(jwe.ENC_REGISTRY), jwe_a.get_header_enc)):
+                for h in ({member: v, "x": 1}, {"x": 1}):
+                    if real_fn is None:
+                        def call(h=h):
+                            try:
+                                jws._prepare_algorithm_key(dict(h), b"", raiser)
+                            except _Reached:
+                                return h["alg"]
+                        real = outcome(call)
+                    else:
+                        real = outcome(lambda h=h: real_fn(dict(h)).name)
+                    mod = M("rb_named_algorithm", {"member": member, "missing": missing, "unsupported": unsupported, "allow": allow, "registry": registry, "header": h})
+                    if real[0] == "refuse":
+                        real = real[:2] + [None]
+                    cmp("rb_named_algorithm", {"member": member, "header": h, "allow": allow}, real, mod)
+            for h in ({"zip": v}, {}):
+                real = outcome(lambda h=h: (lambda z: z.name if z else None)(jwe_a.get_header_zip(dict(h))))
+                if real[0] == "refuse":
+                    real = real[:2] + [None]
+                cmp("rb_jwe_zip", {"header": h, "allow": allow}, real, M("rb_jwe_zip", {"allow": allow, "registry": list(jwe.ZIP_REGISTRY), "header": h}))
+    # 2. to_bytes
+    for v in PV_POOL + [[0, 255], [256], [-1], [0, "a"], [0, 300, "a"], {"": 1}]:
+        cmp("rb_to_bytes", {"v": v}, outcome(lambda v=v: to_bytes(v), val=txt), M("rb_to_bytes", {"v": v}), primitive=True)
+    # 3. JSON serializations: the typing stage against the whole of deserialize_json
+    jws = JsonWebSignature()
+    hs = R.material("oct1", "raw")
+    flat = json.loads(json.dumps(jws.serialize_json({"protected": {"alg": "HS256"}, "header": {"kid": "k"}}, b"payload", hs)))
+    general = json.loads(json.dumps(jws.serialize_json([{"protected": {"alg": "HS256"}, "header": {"kid": "k"}}, {"protected": {"alg": "HS384"}}], b"payload", hs)))
+    ej = json.loads(json.dumps(jwe.serialize_json({"protected": {"alg": "A128KW", "enc": "A128CBC-HS256"}, "unprotected": {"jku": "x"},
+                                                    "recipients": [{"header": {"kid": "a"}}, {"header": {"kid": "b"}}], "aad": b"aad"}, b"secret",
+                                                   [E.material("oct16"), E.material("oct16b")]), default=lambda b: b.decode()))
+
+    def retypings(good):
+        import copy
+
+        def paths(o, pre=()):
+            if isinstance(o, dict):
+                for k, v in o.items():
+                    yield pre + (k,)
+                    yield from paths(v, pre + (k,))
+            elif isinstance(o, list):
+                for i, v in enumerate(o):
+                    yield pre + (i,)
+                    yield from paths(v, pre + (i,))
+        yield "good", good
+        for path in paths(good):
+            for v in [KeyError] + (PV_POOL if not quick else rng.sample(PV_POOL, 10)):
+                o = copy.deepcopy(good)
+                cur = o
+                for k in path[:-1]:
+                    cur = cur[k]
+                if v is KeyError:
+                    del cur[path[-1]]
+                else:
+                    cur[path[-1]] = v
+                yield "/".join(map(str, path)), o
+        for v in PV_POOL:
+            yield "whole", v
+    for name, fn, good, real_fn in (("jws-flat", "rb_jws_json_typing", flat, lambda o: jws.deserialize_json(o, hs)),
+                                    ("jws-general", "rb_jws_json_typing", general, lambda o: jws.deserialize_json(o, hs)),
+                                    ("jwe", "rb_jwe_json_typing", ej, lambda o: jwe.deserialize_json(o, E.material("oct16")))):
+        for lab, o in retypings(good):
+            if isinstance(o, (str, bytes)):
+                continue        # text is parsed first: the model starts from the parsed object
+            import copy
+            real = outcome(lambda o=o: real_fn(copy.deepcopy(o)), val=lambda r: None)
+            mod = M(fn, {"obj": o})
+            case = {"serialization": name, "path": lab, "object": o}
+            ctx.case(dict(case, fn=fn), (fn, json.dumps(o, sort_keys=True, default=repr)), "model:%s:%s" % (fn, mod[0]))
+            # the typing stage refuses => the call refuses with DecodeError; it passes => whatever follows is not a type crash
+            if mod[0] == "refuse":
+                ctx.compare(fn, case, real[:2], ["refuse", "DecodeError"])
+            elif mod[0] == "val":
+                ctx.compare(fn, case, real[0] != "exc" or real[1] == "ValueError" or real[1].startswith("Other:"), True)   # the recorded crypto-stage finding
+            else:
+                ctx.compare(fn, case, real, mod)
+            if real[0] == "exc" and real[1] != "ValueError" and not real[1].startswith("Other:"):
+                ctx.violation("C20:unit-crash:%s:%s" % (fn, real[1]), "deserialize_json raised %s on a member of another type" % real[1], case)
+    # 4. client metadata
+    meta = {"scopes_supported": ["a", "b"], "grant_types_supported": ["authorization_code", "refresh_token"], "response_types_supported": ["code", "token"]}
+    base = {"redirect_uris": ["https://x.example/cb"], "grant_types": ["authorization_code"], "response_types": ["code"], "client_name": "n", "client_uri": "https://x.example/",
+            "logo_uri": "https://x.example/l", "scope": "a", "contacts": ["c"], "tos_uri": "https://x.example/t", "policy_uri": "https://x.example/p",
+            "jwks_uri": "https://x.example/j", "software_id": "s", "software_version": "1"}
+
+    def real_validate(d):
+        import copy
+        d = copy.deepcopy(d)
+        ClientMetadataClaims(d, {}, ClientMetadataClaims.get_claims_options(meta), meta).validate()
+
+    def claim_of(r):
+        if r[0] == "refuse" and r[1] == "InvalidClaimError":
+            return ["refuse", "invalid_client_metadata", (r[2] or "").replace("Invalid claim '", "").rstrip("'")]
+        return r[:1] + ([None] if r[0] == "val" else r[1:])
+    cases = [dict(base)]
+    for k in list(base) + ["token_endpoint_auth_method", "unknown"]:
+        for v in PV_POOL:
+            d = dict(base)
+            d[k] = v
+            cases.append(d)
+        d = dict(base)
+        d.pop(k, None)
+        cases.append(d)
+    for _ in range(40 if quick else 400):
+        d = dict(base)
+        for k in rng.sample(list(base), rng.randint(2, 4)):
+            d[k] = rng.choice(PV_POOL)
+        cases.append(d)
+    for d in cases:
+        real = claim_of(outcome(lambda d=d: real_validate(d)))
+        mod = M("rb_metadata_validate", dict(meta, claims=d))
+        if mod[0] == "val":
+            mod = ["val", None]
+        cmp("rb_metadata_validate", {"claims": d}, real, mod)
+        t = M("rb_claim_types", {"claims": d})
+        if t[0] == "refuse":
+            ctx.compare("rb_claim_types", {"claims": d}, real, t)
+    # 5. the registration body
+    from authlib.oauth2.rfc7591 import ClientRegistrationEndpoint
+
+    class Ep(ClientRegistrationEndpoint):
+        claims_classes = []
+
+        def get_server_metadata(self):
+            return {}
+
+    class Rq:
+        def __init__(self, data):
+            self.data = data
+    for v in PV_POOL + [{"a": 1, "software_statement": None}]:
+        for data in ([v], []):
+            real = outcome(lambda data=data: Ep(None).extract_client_metadata(Rq(data[0] if data else None)), val=lambda r: None)
+            mod = M("rb_registration_body", {"data": data})
+            cmp("rb_registration_body", {"data": data}, real[:2] if real[0] != "val" else ["val"], mod[:2] if mod[0] != "val" else ["val"])
+    # 6. scopes
+    for v in PV_POOL:
+        strs_only = not isinstance(v, list) or all(isinstance(x, str) for x in v)
+        cmp("rb_scope_to_list", {"v": v}, outcome(lambda v=v: u6749.scope_to_list(v)), M("rb_scope_to_list", {"v": v}), exact=strs_only)
+        for required in ([], ["a"], ["a b", "c"], ["HS256"]):
+            cmp("rb_scope_insufficient", {"token_scopes": v, "required": required},
+                outcome(lambda v=v, required=required: TokenValidator.scope_insufficient(v, required)),
+                M("rb_scope_insufficient", {"token_scopes": v, "required": required}))
+    # 7. token claims
+    for v in PV_POOL + ["at+jwt", "AT+JWT", "application/at+jwt", "jwt"]:
+        for typ in ([v], []):
+            real = outcome(lambda typ=typ: JWTAccessTokenClaims({}, {"typ": typ[0]} if typ else {}).validate_typ())
+            if real[0] == "refuse":
+                real = ["refuse", real[1], "typ"]
+            cmp("rb_validate_typ", {"typ": typ}, real, M("rb_validate_typ", {"typ": typ}))
+        for alg, tok in (("HS256", "tok"), ("nope", "tok")):
+            expected = create_half_hash(tok, alg)
+            for sig in (v, expected.decode() if expected else "x"):
+                cmp("rb_verify_hash", {"signature": sig, "alg": alg}, outcome(lambda sig=sig: oidc_claims._verify_hash(sig, tok, alg)),
+                    M("rb_verify_hash", {"signature": sig, "expected": expected}))
+    # 8. RFC 7523 claims
+    known = ["c1", "cj"]
+
+    class G(JWTBearerGrant):
+        def resolve_issuer_client(self, issuer):
+            return {"c1": object(), "cj": object()}.get(issuer)
+
+        def resolve_client_key(self, client, headers, payload):
+            return "KEY"
+
+    class A(JWTBearerClientAssertion):
+        def resolve_client_public_key(self, client, headers):
+            return "KEY"
+
+    class Rq2:
+        client = None
+    for v in PV_POOL + ["c1", "nobody"]:
+        for payload in ({"iss": v, "sub": v}, {"x": 1}):
+            real = outcome(lambda payload=payload: G(None, None).resolve_public_key({}, dict(payload)), val=lambda r: payload["iss"])
+            cmp("rb_resolve_issuer", {"payload": payload}, real, M("rb_resolve_issuer", {"known": known, "payload": payload}))
+            real = outcome(lambda payload=payload: A("u").create_resolve_key_func({"c1": object(), "cj": object()}.get, Rq2())({}, dict(payload)), val=lambda r: payload["sub"])
+            cmp("rb_resolve_assertion_client", {"payload": payload}, real, M("rb_resolve_assertion_client", {"known": known, "payload": payload}))
+    # 9. error descriptions
+    texts = HOSTILE + ["plain text.", "Invalid claim 'x'", "x" * 200, "tab\there", "~}|{", "[\\]", "a\"b"]
+    for d in texts + [None]:
+        real = outcome(lambda d=d: (_ for _ in ()).throw(OAuth2Error(description=d, error="invalid_request")))
+        mod = M("rb_oauth2_error", {"code": "invalid_request", "description": d})
+        if mod[0] == "refuse" and mod[2] == "":
+            mod[2] = None
+        cmp("rb_oauth2_error", {"description": d}, real if real[0] != "val" else ["val", None], mod, primitive=True)
+        if d is not None:
+            ctx.compare("rb_desc_ok", {"s": d}, not invalid_error_characters(d), M("rb_desc_ok", {"s": d}))
+
+            class Rq3:
+                redirect_uri, state = d, None
+
+            class Cl:
+                def check_redirect_uri(self, uri):
+                    return False
+            if d:
+                cmp("rb_redirect_uri_refusal", {"redirect_uri": d}, outcome(lambda: AuthorizationEndpointMixin.validate_authorization_redirect_uri(Rq3(), Cl())),
+                    M("rb_redirect_uri_refusal", {"redirect_uri": d}))
+
+        def refuse_with(d=d):
+            class J(JoseError):
+                error = "x"
+            raise InvalidGrantError(description=m7523._safe_description(J(description=d)))
+        cmp("rb_assertion_refusal", {"description": d}, outcome(refuse_with), M("rb_assertion_refusal", {"code": "invalid_grant", "description": d}))
+        # the client-assertion path, end to end: a JOSE error whose description quotes the token
+        if d:
+            def resolve_key(h, p, d=d):
+                raise InvalidHeaderParameterNameError(d)
+            real = outcome(lambda: A("u").process_assertion_claims(mk_jwt({"alg": "HS256"}, {"sub": "c1"}), resolve_key))
+            full = "Invalid Header Parameter Name: " + d
+            mod = M("rb_assertion_refusal", {"code": "invalid_client", "description": full})
+            cmp("rb_assertion_refusal:client", {"description": full}, real, mod)
+    # 10. OAuth 1 PLAINTEXT / HMAC comparison
+    class Rq4:
+        client_secret, token_secret = "s1-secret", ""
+        method, uri, params = "POST", "https://o1.example/initiate", []
+    for sig in texts:
+        rq = Rq4()
+        rq.signature = sig
+        expected = o1sig.plaintext_signature("s1-secret", "")
+        cmp("rb_verify_plaintext", {"presented": sig}, outcome(lambda: o1sig.verify_plaintext(rq)), M("rb_verify_plaintext", {"expected": expected, "presented": sig}))
+    rq = Rq4()
+    rq.signature = o1sig.plaintext_signature("s1-secret", "")
+    cmp("rb_verify_plaintext", {"presented": rq.signature}, outcome(lambda: o1sig.verify_plaintext(rq)), M("rb_verify_plaintext", {"expected": rq.signature, "presented": rq.signature}))
+
+
+def run_claims(ctx):
+    """signed JWTs whose header members and claims are removed or retyped, decoded and validated the way a relying party does"""
+    from authlib.oidc.core import CodeIDToken, ImplicitIDToken, HybridIDToken, UserInfo  # noqa: F401
+    from authlib.oauth2.rfc9068.claims import JWTAccessTokenClaims
+    from authlib.jose import JWTClaims
+    rng = ctx.rng
+    quick = ctx.tier == "quick"
+    jwt = JsonWebToken(["HS256"])
+    opts = {"iss": {"essential": True, "values": ["https://as.example"]}, "aud": {"essential": True, "value": "c1"}, "exp": {"essential": True},
+            "sub": {"essential": True}, "nonce": {"value": "n1"}, "azp": {"essential": False}}
+    consumers = [("JWTClaims", JWTClaims, opts, {}), ("CodeIDToken", CodeIDToken, opts, {"access_token": "at", "client_id": "c1", "nonce": "n1"}),
+                 ("ImplicitIDToken", ImplicitIDToken, opts, {"access_token": "at", "client_id": "c1", "nonce": "n1"}),
+                 ("HybridIDToken", HybridIDToken, opts, {"access_token": "at", "code": "co", "client_id": "c1", "nonce": "n1"}),
+                 ("JWTAccessTokenClaims", JWTAccessTokenClaims, {"iss": {"essential": True}, "exp": {"essential": True}, "aud": {"essential": True, "value": "c1"},
+                                                                 "sub": {"essential": True}, "client_id": {"essential": True}, "iat": {"essential": True},
+                                                                 "jti": {"essential": True}}, {})]
+    for cname, cls, o, params in consumers:
+        for lab, tok in jwt_variants(rng, "id_token", quick):
+            case = {"entry": "claims:" + cname, "variant": lab, "token": tok}
+            ctx.case(case, (cname, tok), "jose:claims:%s:%s" % (cname, lab.split(":")[0]))
+            try:
+                claims = jwt.decode(tok, SECRET, claims_cls=cls, claims_options=o, claims_params=params)
+                claims.validate(leeway=10)
+                ctx.count("jose:claims:%s:ok" % cname)
+            except JoseError as e:
+                ctx.count("jose:claims:%s:%s" % (cname, type(e).__name__))
+            except Exception as e:  # noqa: BLE001
+                ctx.count("jose:claims:%s:ESCAPES:%s" % (cname, type(e).__name__))
+                ctx.violation("C20:jose-escapes:%s@%s" % (type(e).__name__, module_of(e)),
+                              "decoding and validating a signed JWT as %s raised %s, which is not in the JoseError family: %s" % (cname, type(e).__name__, str(e)[:100]), case)
 
 
 def run_oauth1(ctx):
@@ -452,6 +1053,12 @@ def run_oauth1(ctx):
                     n += 1
                     p["oauth_nonce"] = p.get("oauth_nonce", "n") + str(n) if k != "oauth_nonce" else h
                     variants.append(("param:" + k, p, None))
+            for meth in ("HMAC-SHA1", "RSA-SHA1", "PLAINTEXT"):
+                for sig in ["", "A", "AA==", "!!!", "\u00e9", "%", "a b", "x" * 5000, "=" * 7, "s1-secret&"]:
+                    n += 1
+                    p = dict(base + [("oauth_token", "t"), ("oauth_verifier", "v")])
+                    p.update(oauth_signature_method=meth, oauth_signature=sig, oauth_nonce="m%d" % n)
+                    variants.append(("signature:" + meth, p, None))
             for raw in ["OAuth", "OAuth ", "OAuth x", "OAuth a=b", "OAuth a=\"b", "OAuth =", "OAuth ,,,", "OAuth oauth_consumer_key=\"c1\", oauth_consumer_key=\"c2\"",
                         "OAuth realm=\"x\"", "oauth", "OAuth oauth_signature=\"%zz\"", "OAuth \xe9=\"1\"", "OAuth oauth_timestamp=\"" + "9" * 5000 + "\"", "Basic x", ""]:
                 variants.append(("raw-authz", dict(base), raw))
@@ -465,7 +1072,7 @@ def run_oauth1(ctx):
                     else:
                         resp = prov.client.open(path, method="POST", base_url=c12.BASE, data=p)
                 except Exception as e:  # noqa: BLE001
-                    ctx.violation("C20:crash:%s:%s" % (ep, type(e).__name__), "a request to the OAuth 1 %s endpoint ended in an unhandled %s: %s" % (ep, type(e).__name__, str(e)[:120]), case)
+                    ctx.violation("C20:crash:%s:%s@%s" % (ep, type(e).__name__, site(e)), "a request to the OAuth 1 %s endpoint ended in an unhandled %s: %s" % (ep, type(e).__name__, str(e)[:120]), case)
                     ctx.count("outcome:%s:crash:%s" % (ep, type(e).__name__))
                     continue
                 st = resp.status_code
@@ -488,14 +1095,22 @@ def run_oauth1(ctx):
 
 
 def run(ctx):
-    ctx.rule = ("12 OAuth 2 / OIDC endpoint requests through the Flask integration: every parameter x hostile pool (31 values: empty, 5000 chars, quotes, "
-                "backslash, NUL, CR/LF, header injection, non-ASCII, lone surrogate pair, invalid percent escapes, separators, JSON literals), missing, "
-                "retyped (JSON endpoints), parameter pairs, 22 hostile Authorization headers, 20 raw bodies / queries, 6 content types; 4 OAuth 1 endpoints "
-                "with hostile oauth_* values and 15 raw Authorization headers; 7 JOSE entry points x per-segment malformed base64 / JSON / wrong JSON "
-                "types / structure (24+16 mutations per segment); quick tier samples the pools; distinct_nontrivial = distinct requests")
+    ctx.rule = ("21 OAuth 2 / OIDC base requests (authorization: code, OIDC code / implicit / hybrid, implicit, denied; token: password, client credentials, "
+                "code, refresh, device, jwt-bearer, client assertion; revocation, introspection, device authorization, registration with RFC 7591 + OIDC metadata, "
+                "client configuration, three resource protectors: opaque bearer, RFC 9068, RFC 7523) through the Flask integration: every parameter x hostile pool "
+                "(31 values: empty, 5000 chars, quotes, backslash, NUL, CR/LF, header injection, non-ASCII, surrogate pair, invalid percent escapes, separators, JSON "
+                "literals), missing, retyped with 8 JSON types (JSON endpoints), parameter pairs, 22 hostile Authorization headers, 20 raw bodies / queries, 6 content "
+                "types; JWT-carrying parameters and bearer tokens: every header member and claim removed / retyped with 17 values, 9 non-object payloads, per-segment "
+                "mutations, encrypted tokens; 4 OAuth 1 endpoints with hostile oauth_* values, 3 signature methods x 10 signatures, 15 raw Authorization headers; 14 JOSE "
+                "entry points x per-segment malformed base64 / JSON / wrong JSON types / algorithm swapped for every other family / structure; JWS and JWE JSON "
+                "serializations with every member at every level removed or retyped (14 values); 5 claim consumers x signed tokens with members removed / retyped; "
+                "model correspondence: 19 modelled functions x pool of 34 JSON values per member; quick tier samples the pools; distinct_nontrivial = distinct inputs")
     run_endpoints(ctx)
     run_oauth1(ctx)
     run_jose(ctx)
+    run_jose_json(ctx)
+    run_claims(ctx)
+    run_model(ctx)
 
 
 def run_case(ctx, case):
